@@ -47,6 +47,8 @@ pub struct Sh {
     /// ordered log of hook calls of this dispatch ("bs", "bhe", "pe"), shared by all actors
     pub seq: RefCell<Option<Rc<RefCell<Vec<(usize, &'static str)>>>>>,
     pub faults_on: Cell<bool>,
+    /// composite: the transient child answers Remove the next time it fires
+    pub child_remove: Cell<bool>,
 }
 
 fn bump(c: &Cell<u32>) {
@@ -70,6 +72,98 @@ pub struct CbGuard(pub Rc<Sh>);
 impl Drop for CbGuard {
     fn drop(&mut self) {
         bump(&self.0.cb_dropped);
+    }
+}
+
+pub struct Comp {
+    pub id: usize,
+    pub t: calloop::transient::TransientSource<Generic<FdRef>>,
+    pub others: Vec<Generic<FdRef>>,
+    pub sh: Rc<Sh>,
+}
+
+impl Drop for Comp {
+    fn drop(&mut self) {
+        bump(&self.sh.src_dropped);
+    }
+}
+
+impl EventSource for Comp {
+    type Event = usize;
+    type Metadata = ();
+    type Ret = Ret;
+    type Error = std::io::Error;
+
+    fn process_events<F>(&mut self, readiness: Readiness, token: Token, mut callback: F) -> Result<PostAction, Self::Error>
+    where
+        F: FnMut(usize, &mut ()) -> Ret,
+    {
+        bump(&self.sh.pe);
+        self.sh.in_pe.set(true);
+        let mut hit: Option<usize> = None;
+        let arm = self.sh.child_remove.get();
+        let tr = self.t.process_events(readiness, token, |_, fd| {
+            hit = Some(0);
+            epoll::eventfd_read(fd.0.as_raw_fd());
+            Ok(if arm { PostAction::Remove } else { PostAction::Continue })
+        })?;
+        if hit == Some(0) && arm {
+            self.sh.child_remove.set(false);
+        }
+        for (k, g) in self.others.iter_mut().enumerate() {
+            let mut ran = false;
+            let _ = g.process_events(readiness, token, |_, fd| {
+                ran = true;
+                epoll::eventfd_read(fd.0.as_raw_fd());
+                Ok(PostAction::Continue)
+            });
+            if ran {
+                hit = Some(k + 1);
+            }
+        }
+        let user = match hit {
+            Some(k) => callback(k, &mut ()),
+            None => Ret::Continue,
+        };
+        self.sh.in_pe.set(false);
+        let mine = match user {
+            Ret::Continue => PostAction::Continue,
+            Ret::Reregister => PostAction::Reregister,
+            Ret::Disable => PostAction::Disable,
+            Ret::Remove => PostAction::Remove,
+            Ret::Err => return Err(std::io::Error::new(std::io::ErrorKind::Other, "scripted failure")),
+        };
+        // the documented way of combining the transient child's answer with our own
+        Ok(if tr == PostAction::Reregister && mine == PostAction::Continue { PostAction::Reregister } else { mine })
+    }
+
+    fn register(&mut self, poll: &mut Poll, tf: &mut TokenFactory) -> calloop::Result<()> {
+        bump(&self.sh.reg);
+        self.t.register(poll, tf)?;
+        for g in self.others.iter_mut() {
+            g.register(poll, tf)?;
+        }
+        self.sh.registered.set(true);
+        Ok(())
+    }
+
+    fn reregister(&mut self, poll: &mut Poll, tf: &mut TokenFactory) -> calloop::Result<()> {
+        bump(&self.sh.rereg);
+        self.t.reregister(poll, tf)?;
+        for g in self.others.iter_mut() {
+            g.reregister(poll, tf)?;
+        }
+        Ok(())
+    }
+
+    fn unregister(&mut self, poll: &mut Poll) -> calloop::Result<()> {
+        bump(&self.sh.unreg);
+        self.t.unregister(poll)?;
+        for g in self.others.iter_mut() {
+            g.unregister(poll)?;
+        }
+        self.sh.registered.set(false);
+        Ok(())
     }
 }
 
@@ -229,6 +323,9 @@ impl<const L: bool> EventSource for Scr<L> {
 pub enum Spec {
     /// scripted source: lifecycle?, number of fd children, timer child first?
     Scr { life: bool, nsubs: u8, timer: bool },
+    /// composite written after the documentation: a TransientSource<Generic> child (sub 0) in front
+    /// of two plain Generic children (subs 1 and 2)
+    Comp,
     /// a plain calloop timer with a deadline in the past (fires at the next dispatch, then drops)
     PastTimer,
 }
@@ -242,6 +339,8 @@ pub enum ROp {
     Enable(usize),
     Update(usize),
     Ping(usize, u8),
+    /// composite: its transient child answers Remove the next time it fires
+    ArmChildRemove(usize),
     Synth(usize, u8),
     InsertIdle,
     CancelIdle(usize),
@@ -301,6 +400,11 @@ pub struct RA {
     pub synth_seen: bool,
     pub timer_fired: bool,
     pub rejected: bool,
+    /// composite: the transient child is armed to remove itself / is gone
+    pub tarmed: bool,
+    pub tgone: bool,
+    /// composite: the child went away in this dispatch while sibling events were still in the batch
+    pub shifted_in_batch: bool,
     /// a registration call on this (composite) source failed half-way: which of its children
     /// are registered is the source's own business; the property only protects the others
     pub broken: bool,
@@ -423,6 +527,9 @@ impl RCtx {
             synth_seen: false,
             timer_fired: false,
             rejected: false,
+            tarmed: false,
+            tgone: false,
+            shifted_in_batch: false,
             broken: false,
         };
         let mut rt = RRt {
@@ -466,6 +573,23 @@ impl RCtx {
                         })
                         .map_err(|e| format!("{:?}", e.error))
                 }
+            }
+            Spec::Comp => {
+                ra.pend = vec![false; 3];
+                let mut gens = vec![];
+                for _ in 0..3 {
+                    let efd = Rc::new(epoll::eventfd());
+                    rt.efds.push(efd.clone());
+                    gens.push(Generic::new(FdRef(efd), Interest::READ, Mode::Level));
+                }
+                let first = gens.remove(0);
+                let src = Comp { id, t: first.into(), others: gens, sh: sh.clone() };
+                self.h
+                    .insert_source(src, move |k, _, ctx: &mut RCtx| {
+                        let _g = &guard;
+                        ctx.on_cb(id, k)
+                    })
+                    .map_err(|e| format!("{:?}", e.error))
             }
             Spec::PastTimer => {
                 let t = Timer::from_deadline(seqhooks::base() - Duration::from_secs(1));
@@ -545,6 +669,24 @@ impl RCtx {
         for (i, a) in self.m.iter().enumerate() {
             if !a.alive {
                 continue;
+            }
+            if let Spec::Comp = a.spec {
+                for k in 0..3u8 {
+                    if !a.pend[k as usize] && !(k == 0 && a.tgone) {
+                        v.push(ROp::Ping(i, k));
+                    }
+                }
+                if !a.tarmed && !a.tgone {
+                    v.push(ROp::ArmChildRemove(i));
+                }
+                if c.top_ops {
+                    if a.enabled {
+                        v.push(ROp::Disable(i));
+                        v.push(ROp::Update(i));
+                    } else {
+                        v.push(ROp::Enable(i));
+                    }
+                }
             }
             if let Spec::Scr { nsubs, life, .. } = a.spec {
                 for k in 0..nsubs {
@@ -654,6 +796,7 @@ impl RCtx {
             self.violate(&["C01", "C07"], "callback-while-disabled", &[("kind", "Scripted".into()), ("updated_while_disabled", "false".into())], format!("scripted source {id} called back while disabled"));
         }
         // cause: a ping on that sub, or the synthetic event owed to that sub
+        let mut comp_child_removed = false;
         let a = &mut self.m[id];
         let mut legit = false;
         // synthetic events are dispatched before the polled ones; one cause per callback
@@ -666,9 +809,22 @@ impl RCtx {
             legit = true;
         }
         if !legit {
-            self.violate(&["C01", "C14"], "callback-without-cause", &[("kind", "Scripted".into())], format!("scripted source {id} got an event for sub {sub} without a ping or synthetic event"));
+            let shifted = self.m[id].shifted_in_batch;
+            self.violate(&["C01", "C14"], "callback-without-cause", &[("kind", "Scripted".into()), ("sibling_sub_ids_shifted_in_batch", shifted.to_string())], format!("scripted source {id} got an event for sub {sub} without a ping or synthetic event"));
+        }
+        if matches!(self.m[id].spec, Spec::Comp) && sub == 0 && self.m[id].tarmed {
+            // the transient child removes itself: the composite answers Reregister, and the
+            // positional sub-ids of its siblings shift while their events may still be in the batch
+            let a = &mut self.m[id];
+            a.tarmed = false;
+            a.tgone = true;
+            comp_child_removed = true;
+            if a.pend[1] || a.pend[2] {
+                a.shifted_in_batch = true;
+            }
         }
         self.m[id].called = true;
+        let _ = comp_child_removed;
         if !self.idle_runs_this_dispatch.is_empty() {
             let ran = self.idle_runs_this_dispatch.clone();
             self.violate(&["C13"], "idle-before-events-done", &[], format!("source {id} was called back after idle(s) {ran:?} had already run in this dispatch"));
@@ -740,7 +896,7 @@ impl RCtx {
                 self.expect_err = true;
             }
         } else {
-            let eff = match ret {
+            let mut eff = match ret {
                 Ret::Continue => match defer {
                     Some(ROp::DeferDisable) => Ret::Disable,
                     Some(ROp::DeferUpdate) => Ret::Reregister,
@@ -748,6 +904,11 @@ impl RCtx {
                 },
                 r => r,
             };
+            if comp_child_removed && ret == Ret::Continue {
+                // the composite itself answers Reregister because its transient child asked for it;
+                // an explicit answer takes precedence over a deferred request
+                eff = Ret::Reregister;
+            }
             match eff {
                 Ret::Continue => {}
                 Ret::Reregister => {
@@ -840,6 +1001,10 @@ impl RCtx {
             ROp::Ping(i, k) => {
                 epoll::eventfd_write(self.rt[i].efds[k as usize].as_raw_fd(), 1);
                 self.m[i].pend[k as usize] = true;
+            }
+            ROp::ArmChildRemove(i) => {
+                self.rt[i].sh.child_remove.set(true);
+                self.m[i].tarmed = true;
             }
             ROp::Synth(i, k) => {
                 self.rt[i].sh.synth.set(Some(k as usize));
@@ -967,6 +1132,7 @@ impl RCtx {
             let sh = &self.rt[i].sh;
             a.called = false;
             a.disturbed = false;
+            a.shifted_in_batch = false;
             a.bs0 = sh.bs.get();
             a.bhe0 = sh.bhe.get();
             a.pe0 = sh.pe.get();
@@ -1075,7 +1241,7 @@ impl RCtx {
                 }
             }
             // ---- owed callbacks (C02 / C15: other sources lose nothing)
-            if ok && a.owed && !a.disturbed && !self.m[i].called {
+            if ok && a.owed && !a.disturbed && !self.m[i].called && !self.m[i].shifted_in_batch {
                 let kind = if matches!(a.spec, Spec::PastTimer) { "Timer" } else { "Scripted" };
                 self.violate(&["C02", "C15"], "owed-not-called", &[("kind", kind.into())], format!("actor {i} ({kind}) had a pending cause, was not disturbed, and was not called in an Ok dispatch"));
             }
